@@ -589,9 +589,10 @@ func c09BlockingRetention(c *fw.Ctx) {
 						deadline := time.Now().Add(10 * time.Second)
 						for delivered.Load() < int64(k+1) {
 							if parked.Load() {
-								pending := s.(*lungo.Stream).VerifSignalPending()
-								time.Sleep(20 * time.Millisecond)
-								if pending == 0 && parked.Load() && delivered.Load() < int64(k+1) {
+								stuck := c09StableStall(func() (bool, int, int64) {
+									return parked.Load(), s.(*lungo.Stream).VerifSignalPending(), delivered.Load()
+								})
+								if stuck && delivered.Load() < int64(k+1) {
 									if err := s.Err(); err != nil {
 										break // reported below
 									}
@@ -623,6 +624,24 @@ func c09BlockingRetention(c *fw.Ctx) {
 			}
 		}
 	}
+}
+
+// c09StableStall samples (parked, pending signals, delivered) six times 40 ms
+// apart; a stall is only reported when every sample shows the consumer parked,
+// no wake-up signal pending and the same number of delivered events.
+func c09StableStall(sample func() (bool, int, int64)) bool {
+	p0, s0, d0 := sample()
+	if !p0 || s0 != 0 {
+		return false
+	}
+	for i := 0; i < 5; i++ {
+		time.Sleep(40 * time.Millisecond)
+		p, s, d := sample()
+		if !p || s != 0 || d != d0 {
+			return false
+		}
+	}
+	return true
 }
 
 func c09Concurrent(c *fw.Ctx) {
@@ -772,16 +791,21 @@ func c09ConcurrentRun(c *fw.Ctx, r *fw.Rand, k int) {
 				break
 			}
 			if cc.parked.Load() {
-				pending := -1
-				if s, ok := cc.st.s.(*lungo.Stream); ok {
-					pending = s.VerifSignalPending()
-				}
-				// re-evaluate after giving the scheduler a chance (the consumer may be between wake-up and bookkeeping)
-				time.Sleep(20 * time.Millisecond)
+				// (the consumer may be between its wake-up and its bookkeeping: the
+				// pattern must hold over several samples)
+				stuck := c09StableStall(func() (bool, int, int64) {
+					pending := -1
+					if s, ok := cc.st.s.(*lungo.Stream); ok {
+						pending = s.VerifSignalPending()
+					}
+					cc.mu.Lock()
+					defer cc.mu.Unlock()
+					return cc.parked.Load(), pending, int64(len(cc.ids))
+				})
 				cc.mu.Lock()
 				n2 := len(cc.ids)
 				cc.mu.Unlock()
-				if pending == 0 && cc.parked.Load() && n2 == n && n2 < len(want) {
+				if stuck && n2 == n && n2 < len(want) {
 					c.Violate("stream:lost-wake-up", fmt.Sprintf("a consumer (%s) is parked waiting although %d committed events of its scope are undelivered, no wake-up signal is pending and no writer is active", cc.st.scope(), len(want)-n2),
 						map[string]interface{}{"delivered": n2, "expected": len(want), "hook_trace": ctl.TraceStrings(60)})
 					return
